@@ -742,6 +742,22 @@ func (en *Engine) localsResolver(st *State, f *Frame) func(string) (Value, bool)
 				return val, true
 			}
 		}
+		// a register whose DebugRef has not been executed yet (the anchor sits right after its definition)
+		for _, b := range f.fn.Blocks {
+			for _, ins := range b.Instrs {
+				if d, ok := ins.(*ssa.DebugRef); ok && !d.IsAddr {
+					if id, ok := d.Expr.(*ast.Ident); ok && id.Name == name {
+						switch d.X.(type) {
+						case *ssa.Phi, *ssa.Alloc, *ssa.Parameter, *ssa.Const:
+							continue
+						}
+						if val, ok := f.env[d.X]; ok && val != nil {
+							return val, true
+						}
+					}
+				}
+			}
+		}
 		return nil, false
 	}
 }
